@@ -57,6 +57,8 @@ fn montgomery(x: &BigUint, y: &BigUint, m: &BigUint, k: BigDigit, n: usize) -> B
         n
     );
 
+    #[cfg(num_bigint_verif)]
+    crate::verif_probe::hit(crate::verif_probe::Probe::MONTY_CALL);
     let mut z = BigUint::ZERO;
     z.data.resize(n * 2, 0);
 
@@ -78,6 +80,8 @@ fn montgomery(x: &BigUint, y: &BigUint, m: &BigUint, k: BigDigit, n: usize) -> B
     if c == 0 {
         z.data = z.data[n..].to_vec();
     } else {
+        #[cfg(num_bigint_verif)]
+        crate::verif_probe::hit(crate::verif_probe::Probe::MONTY_SUB);
         {
             let (first, second) = z.data.split_at_mut(n);
             sub_vv(first, second, &m.data);
@@ -216,8 +220,12 @@ pub(super) fn monty_modpow(x: &BigUint, y: &BigUint, m: &BigUint) -> BigUint {
         // in case our beliefs are wrong.
         // The div is not expected to be reached.
         zz -= m;
+        #[cfg(num_bigint_verif)]
+        crate::verif_probe::hit(crate::verif_probe::Probe::MONTY_FINAL_SUB);
         if zz >= *m {
             zz %= m;
+            #[cfg(num_bigint_verif)]
+            crate::verif_probe::hit(crate::verif_probe::Probe::MONTY_FINAL_REM);
         }
     }
 
